@@ -468,6 +468,9 @@ same("C17", "r6-sqrt-clamp-mask-store", E + "Models/_phasefield.py", "          
 same("C17", "r6-sqrt-clamp-where", E + "Models/_phasefield.py", "            delta = np.maximum(delta, 0.0)\n", "            delta = np.where(delta > 0.0, delta, 0.0)\n")
 same("C17", "r6-arccos-minmax", E + "Models/_phasefield.py", "            np.clip(arg, -1.0, 1.0, out=arg)\n", "            arg = np.minimum(1.0, np.maximum(-1.0, arg))\n")
 
+same("C19", "r6-convergence-local-magnitude", E + "Models/InElastic/_behavior.py", "            if np.max(np.abs(r_e_pg)) < tol:\n", "            err_e_pg = np.abs(r_e_pg)\n            if err_e_pg.max() < tol:\n")
+same("C19", "r6-convergence-two-sided-chain", E + "Models/InElastic/_materialpoint.py", "                if np.max(np.abs(r)) < self._tol:\n", "                if -self._tol < np.min(r) and np.max(r) < self._tol:\n")
+
 
 def apply_edit(root, e):
     if e.get("patch"):
